@@ -152,9 +152,24 @@ pub fn thread_cpu_us() -> u64 {
     ts.tv_sec as u64 * 1_000_000 + ts.tv_nsec as u64 / 1000
 }
 
-/// CPU budget for one case on `n` input bytes: 20 s + 1 ms per byte.
+static PROFILE_FACTOR: AtomicU64 = AtomicU64::new(1);
+
+/// The CPU budget is calibrated for the optimised build; instrumented builds run the same code
+/// several times slower (measured: checked ~3x, ASan ~7x, TSan ~10x), so their budget is scaled.
+/// A bounded-progress verdict must not depend on which instrumentation is switched on.
+pub fn set_profile(profile: &str) {
+    let f = match profile {
+        "checked" => 4,
+        "asan" => 12,
+        "tsan" => 20,
+        _ => 1,
+    };
+    PROFILE_FACTOR.store(f, Ordering::Relaxed);
+}
+
+/// CPU budget for one case on `n` input bytes: 20 s + 1 ms per byte (times the profile factor).
 pub fn cpu_budget_us(n: usize) -> u64 {
-    20_000_000 + 1000 * n as u64
+    (20_000_000 + 1000 * n as u64) * PROFILE_FACTOR.load(Ordering::Relaxed)
 }
 
 // ---------------------------------------------------------------- alloc ----
